@@ -966,8 +966,13 @@ class SamplingMethod(DirectMethod):
             if var in self.signals:
                 target = stage.sample(var,'gist')[1]
                 opti.set_initial(target, ca.repmat(value,1,target.shape[1]), cache_advanced=True)
+            vars_last_interval = set(hash(e) for e in symvar(self.eval_at_control(stage, var, self.N-1)))
             for k in list(range(self.N))+[-1]:
                 target = self.eval_at_control(stage, var, k)
+                if k==-1 and set(hash(e) for e in symvar(target))==vars_last_interval:
+                    # Controls and per-interval variables have no separate value at the final node:
+                    # do not overwrite the last interval with the guess at t_f
+                    continue
                 value_k = value
                 if target.numel()*(self.N)==value.numel() or target.numel()*(self.N+1)==value.numel():
                     value_k = value[:,k]
